@@ -1723,6 +1723,13 @@ cd {ROOT}
                 a.setResult("ok", EXECUTED)
             else:
                 a.setResult("skipped (package already installed)", SKIPPED)
+                # Somebody else was faster. Register our workspace as user of
+                # the package so that it is not garbage collected while we
+                # link to it.
+                if self.__useSharedPackages:
+                    sharedPath, _ = self.__share.useSharedPackage(
+                        prettyPackagePath, buildId)
+                    if sharedPath is None: return
 
         if self.__useSharedPackages:
             sharedWorkspace = os.path.join(sharedPath, "workspace")
